@@ -21,6 +21,7 @@ import (
 	"fmt"
 	"io"
 	"net/http"
+	"os"
 	"sort"
 	"strconv"
 	"strings"
@@ -32,6 +33,8 @@ import (
 	"golang.org/x/net/internal/verifrt"
 	"golang.org/x/net/internal/verifrt/h2ref"
 )
+
+var vrfDebug = os.Getenv("VRF_DEBUG") != ""
 
 const vrfMaxWindow = 1<<31 - 1
 
@@ -276,10 +279,14 @@ func (a *vrfApp) runBody(body io.ReadCloser, c vrfCmd) bool {
 			}
 		}
 	case 'c':
-		body.Close()
+		// closed once only: io.Closer leaves a second Close undefined
 		a.mu.Lock()
+		already := a.bodyClosed
 		a.bodyClosed = true
 		a.mu.Unlock()
+		if !already {
+			body.Close()
+		}
 	default:
 		return false
 	}
@@ -306,20 +313,42 @@ type vrfLedger struct {
 	viol       func(key, format string, a ...any)
 }
 
+// vrfClass maps the discard path of the stream an action touched to the class used in
+// violation keys: the three ways of sending DATA after the peer's own END_STREAM are one class.
+func vrfClass(taint string) string {
+	switch taint {
+	case "after-trailers", "short-body":
+		return "after-end-stream"
+	}
+	return taint
+}
+
+// key builds <role>:<symptom>@<discard-path class>, or <role>:<symptom>:<action>@clean when
+// the action touched no stream on a discard path.
+func (l *vrfLedger) key(symptom, prim, taint string) string {
+	if taint == "" {
+		return l.role + ":" + symptom + ":" + prim + "@clean"
+	}
+	return l.role + ":" + symptom + "@" + vrfClass(taint)
+}
+
 // check evaluates the two at-quiescence equalities.
 //
 //	view:   peer's view of the connection window (wire)
 //	avail, unsent: the implementation's inflow (white box)
 //	held:   bytes sitting unread in body buffers the application can still read or close
-func (l *vrfLedger) check(view int64, avail, unsent int32, held int64, what, hist string) (ok bool) {
+//	prim, taint: the script action that preceded the check and the discard path of its stream
+//	excessKey: optional refinement of the key of a credit-excess violation (given its amount)
+func (l *vrfLedger) check(view int64, avail, unsent int32, held int64, prim, taint string, excessKey func(int64) string, hist string) (ok bool) {
 	l.checks++
 	ok = true
+	what := prim + "@" + taint
 	if d := int64(avail) - (view + l.gap); d != 0 {
 		ok = false
 		if d > 0 {
-			l.viol(l.role+":data-not-counted:"+what, "at quiescence the peer's view of the connection receive window is %d but the implementation believes the peer still has %d: %d flow-controlled bytes the peer sent were never taken from the connection window (and can therefore never be returned) [after %s]\n%s", view+l.gap, avail, d, what, hist)
+			l.viol(l.key("data-not-counted", prim, taint), "at quiescence the peer's view of the connection receive window is %d but the implementation believes the peer still has %d: %d flow-controlled bytes the peer sent were never taken from the connection window (and can therefore never be returned) [after %s]\n%s", view+l.gap, avail, d, what, hist)
 		} else {
-			l.viol(l.role+":window-update-not-on-wire:"+what, "at quiescence the peer's view of the connection receive window is %d but the implementation believes it has advertised %d: %d bytes of credit were booked as sent without a WINDOW_UPDATE reaching the peer [after %s]\n%s", view+l.gap, avail, -d, what, hist)
+			l.viol(l.key("window-update-not-on-wire", prim, taint), "at quiescence the peer's view of the connection receive window is %d but the implementation believes it has advertised %d: %d bytes of credit were booked as sent without a WINDOW_UPDATE reaching the peer [after %s]\n%s", view+l.gap, avail, -d, what, hist)
 		}
 		l.gap += d
 	}
@@ -327,9 +356,16 @@ func (l *vrfLedger) check(view int64, avail, unsent int32, held int64, what, his
 	if d := (l.configured - l.lost) - sum; d != 0 {
 		ok = false
 		if d > 0 {
-			l.viol(l.role+":credit-lost:"+what, "at quiescence advertised window %d + credit not yet advertised %d + bytes buffered for the application %d = %d, expected the configured connection window %d: %d bytes of connection-level credit are gone (neither advertised, nor pending, nor backing buffered data) [after %s]\n%s", avail, unsent, held, sum, l.configured-l.lost, d, what, hist)
+			l.viol(l.key("credit-lost", prim, taint), "at quiescence advertised window %d + credit not yet advertised %d + bytes buffered for the application %d = %d, expected the configured connection window %d: %d bytes of connection-level credit are gone (neither advertised, nor pending, nor backing buffered data) [after %s]\n%s", avail, unsent, held, sum, l.configured-l.lost, d, what, hist)
 		} else {
-			l.viol(l.role+":credit-excess:"+what, "at quiescence advertised window %d + credit not yet advertised %d + bytes buffered for the application %d = %d, expected the configured connection window %d: %d bytes of connection-level credit were returned twice [after %s]\n%s", avail, unsent, held, sum, l.configured-l.lost, -d, what, hist)
+			k := ""
+			if excessKey != nil {
+				k = excessKey(-d)
+			}
+			if k == "" {
+				k = l.key("credit-excess", prim, taint)
+			}
+			l.viol(k, "at quiescence advertised window %d + credit not yet advertised %d + bytes buffered for the application %d = %d, expected the configured connection window %d: %d bytes of connection-level credit were returned twice [after %s]\n%s", avail, unsent, held, sum, l.configured-l.lost, -d, what, hist)
 		}
 		l.lost += d
 	}
@@ -405,6 +441,8 @@ type vrfSrv struct {
 	order   []*vrfSrvStream
 	dead    bool
 	nviol   atomic.Int64
+
+	prevRead map[uint32]int64 // handler read counts at the previous check
 }
 
 func vrfNewSrv(r *verifrt.R, c *verifrt.Case, cfg vrfSrvCfg, tune func(h1 *http.Server, h2 *Server)) *vrfSrv {
@@ -530,6 +568,7 @@ func (h *vrfSrv) data(st *vrfSrvStream, n int, pad int, end bool) {
 type vrfSrvSample struct {
 	avail, unsent int32
 	bodies        map[uint32]int // st.body.Len() of every stream the server still knows
+	known         map[uint32]bool
 	streams       int
 	inGoAway      bool
 }
@@ -544,8 +583,9 @@ func (h *vrfSrv) sample() (vrfSrvSample, bool) {
 	}
 	ch := make(chan vrfSrvSample, 1)
 	msg := func(sc *serverConn) {
-		v := vrfSrvSample{avail: sc.inflow.avail, unsent: sc.inflow.unsent, bodies: map[uint32]int{}, streams: len(sc.streams), inGoAway: sc.inGoAway}
+		v := vrfSrvSample{avail: sc.inflow.avail, unsent: sc.inflow.unsent, bodies: map[uint32]int{}, known: map[uint32]bool{}, streams: len(sc.streams), inGoAway: sc.inGoAway}
 		for id, st := range sc.streams {
+			v.known[id] = true
 			if st.body != nil {
 				v.bodies[id] = st.body.Len()
 			}
@@ -575,6 +615,22 @@ func (h *vrfSrv) quiescent() bool {
 	defer s.mu.Unlock()
 	s.ev["quiescent_points"]++
 	if s.srvClosed || s.cliClosed || len(s.panics) > 0 || (s.goAway && s.goAwayCode != 0) {
+		if !h.dead {
+			switch {
+			case len(s.panics) > 0:
+				h.R.Event("server_connection_lost_to_panic", 1)
+			case s.goAway && s.goAwayCode != 0:
+				h.R.Event("server_connection_error_code_"+strconv.Itoa(int(s.goAwayCode)), 1)
+				if vrfDebug {
+					fmt.Printf("VRFDEBUG server GOAWAY code %d:\n%s\n", s.goAwayCode, s.history(30))
+				}
+			default:
+				h.R.Event("server_connection_closed", 1)
+				if vrfDebug {
+					fmt.Printf("VRFDEBUG server closed:\n%s\n", s.history(30))
+				}
+			}
+		}
 		h.dead = true
 		return false
 	}
@@ -587,8 +643,15 @@ func (h *vrfSrv) hist() string {
 	return h.S.history(45)
 }
 
+func vrfSplitWhat(what string) (prim, taint string) {
+	if i := strings.IndexByte(what, '@'); i >= 0 {
+		return what[:i], what[i+1:]
+	}
+	return what, ""
+}
+
 // check runs the conservation oracle at a quiescent point. what names the script action that
-// preceded it (primitive@taint-of-the-stream-it-acted-on).
+// preceded it: primitive@discard-path-of-the-stream-it-acted-on.
 func (h *vrfSrv) check(what string) bool {
 	if h.dead || !h.quiescent() {
 		return false
@@ -611,7 +674,31 @@ func (h *vrfSrv) check(what string) bool {
 	if smp.unsent > 0 {
 		h.R.Event("server_checks_with_batched_credit", 1)
 	}
-	good := h.L.check(view, smp.avail, smp.unsent, held, what, h.hist())
+	// Body bytes handlers read since the previous check on streams the server has closed
+	// (closeStream has run: the stream is gone from sc.streams). closeStream returns the
+	// credit of everything still buffered; a handler reading those bytes afterwards is the one
+	// known way to get the same credit twice, so an excess no larger than that gets its own key.
+	var readOnClosed int64
+	if h.prevRead == nil {
+		h.prevRead = map[uint32]int64{}
+	}
+	for _, st := range h.order {
+		if st.app == nil {
+			continue
+		}
+		read, _, _, started, _ := st.app.snapshot()
+		if started && !smp.known[st.id] {
+			readOnClosed += read - h.prevRead[st.id]
+		}
+		h.prevRead[st.id] = read
+	}
+	prim, taint := vrfSplitWhat(what)
+	good := h.L.check(view, smp.avail, smp.unsent, held, prim, taint, func(excess int64) string {
+		if excess <= readOnClosed {
+			return "server:credit-excess:body-read-after-stream-closed"
+		}
+		return ""
+	}, h.hist())
 	// boundary cross-check of the white-box "held": for a stream no discard path has touched,
 	// the bytes buffered must be what the peer sent minus what the handler has read.
 	for _, st := range h.order {
@@ -623,7 +710,7 @@ func (h *vrfSrv) check(what string) bool {
 			continue
 		}
 		if n, ok := smp.bodies[st.id]; ok && int64(n) != st.accepted-read {
-			h.L.viol("server:buffered-bytes-mismatch:"+what, "stream %d: the peer sent %d body bytes, the handler has read %d, but %d bytes are buffered\n%s", st.id, st.accepted, read, n, h.hist())
+			h.L.viol("server:buffered-bytes-mismatch:"+prim, "stream %d: the peer sent %d body bytes, the handler has read %d, but %d bytes are buffered\n%s", st.id, st.accepted, read, n, h.hist())
 			good = false
 		}
 		h.R.Event("server_clean_stream_buffer_checks", 1)
@@ -754,7 +841,7 @@ type vrfCli struct {
 
 	reqs  []*vrfReq
 	byTag map[string]*vrfReq
-	known map[uint32]*clientStream // every clientStream ever seen registered on the connection
+	known map[*clientStream]bool // every clientStream ever seen (registered on the connection or behind a response body)
 	dead  bool
 	nviol int
 }
@@ -764,7 +851,7 @@ func vrfNewCli(r *verifrt.R, c *verifrt.Case, cfg vrfCliCfg) (*vrfCli, error) {
 	if cfg.ConnBuf != 0 || cfg.StreamBuf != 0 {
 		tr.t1 = &http.Transport{HTTP2: &http.HTTP2Config{MaxReceiveBufferPerConnection: cfg.ConnBuf, MaxReceiveBufferPerStream: cfg.StreamBuf}}
 	}
-	h := &vrfCli{R: r, C: c, Cfg: cfg, byTag: map[string]*vrfReq{}, known: map[uint32]*clientStream{}}
+	h := &vrfCli{R: r, C: c, Cfg: cfg, byTag: map[string]*vrfReq{}, known: map[*clientStream]bool{}}
 	h.Sess = vcliNewSession(r, c, tr)
 	h.Sh = vrfNewShadow(func(key, detail string) {
 		h.nviol++
@@ -833,14 +920,20 @@ func (h *vrfCli) start(method string) *vrfReq {
 			a.mu.Unlock()
 		}()
 		if err != nil {
-			for range a.cmd {
+			for c := range a.cmd {
 				a.done()
+				if c.K == 'x' {
+					return
+				}
 			}
 			return
 		}
 		for c := range a.cmd {
 			a.runBody(resp.Body, c)
 			a.done()
+			if c.K == 'x' {
+				break
+			}
 		}
 		if _, _, closed, _, _ := a.snapshot(); !closed {
 			resp.Body.Close()
@@ -898,11 +991,39 @@ func (h *vrfCli) view(id uint32) (conn, stream, maxFrame int64) {
 // settle reaches quiescence with all client output parsed; false when the connection is gone.
 func (h *vrfCli) settle() bool {
 	h.Sess.Settle()
+	was := h.dead
 	if h.SC.Dead || h.SC.closedBySrv || h.SC.NC.clientClosed() {
 		h.dead = true
+		if !was {
+			h.R.Event("client_connection_closed_by_client", 1)
+			if h.SC.Sh.goAwaySent {
+				h.R.Event("client_connection_closed_after_server_goaway", 1)
+			} else {
+				code := -1
+				for _, e := range h.Sh.errs {
+					if e.Stream == 0 {
+						code = int(e.Code)
+					}
+				}
+				h.R.Event("client_connection_closed_with_goaway_code_"+strconv.Itoa(code), 1)
+				var rerr error
+				select {
+				case <-h.CC.readerDone:
+					rerr = h.CC.readerErr
+				default:
+				}
+				h.R.Note("client closed connection in %s/%d (its GOAWAY code %d) reader error: %v\n%s", h.C.Stream, h.C.Index, code, rerr, h.SC.Trace())
+				if vrfDebug {
+					fmt.Printf("VRFDEBUG client closed connection:\n%s\n", h.SC.Trace())
+				}
+			}
+		}
 	}
 	for _, e := range h.Sh.errs {
 		if e.Stream == 0 && e.Code != h2ref.ErrNo {
+			if !h.dead {
+				h.R.Event("client_connection_error_code_"+strconv.Itoa(int(e.Code)), 1)
+			}
 			h.dead = true // the client gave up on the connection
 		}
 	}
@@ -920,6 +1041,7 @@ func (h *vrfCli) sample() vrfCliSample {
 	appClosed := map[*clientStream]bool{}
 	for _, rq := range h.reqs {
 		if _, _, cs := rq.roundTripState(); cs != nil {
+			h.known[cs] = true
 			if _, _, closed, _, _ := rq.app.snapshot(); closed {
 				appClosed[cs] = true
 			}
@@ -927,13 +1049,16 @@ func (h *vrfCli) sample() vrfCliSample {
 	}
 	cc.mu.Lock()
 	defer cc.mu.Unlock()
-	for id, cs := range cc.streams {
-		h.known[id] = cs
+	for _, cs := range cc.streams {
+		h.known[cs] = true
 	}
 	v := vrfCliSample{avail: cc.inflow.avail, unsent: cc.inflow.unsent, streams: len(cc.streams)}
-	for _, cs := range h.known {
+	for cs := range h.known {
 		if !appClosed[cs] {
 			v.held += int64(cs.bufPipe.Len())
+		}
+		if vrfDebug {
+			fmt.Printf("VRFDEBUG cs id=%d appClosed=%v len=%d bnil=%v err=%v breakErr=%v readErr=%v bytesRemain=%d avail=%d unsent=%d\n", cs.ID, appClosed[cs], cs.bufPipe.Len(), cs.bufPipe.b == nil, cs.bufPipe.err, cs.bufPipe.breakErr, cs.readErr, cs.bytesRemain, cc.inflow.avail, cc.inflow.unsent)
 		}
 	}
 	return v
@@ -951,7 +1076,8 @@ func (h *vrfCli) check(what string) bool {
 	if smp.unsent > 0 {
 		h.R.Event("client_checks_with_batched_credit", 1)
 	}
-	good := h.L.check(h.Sh.connWin, smp.avail, smp.unsent, smp.held, what, "last frames:\n"+h.SC.Trace())
+	prim, taint := vrfSplitWhat(what)
+	good := h.L.check(h.Sh.connWin, smp.avail, smp.unsent, smp.held, prim, taint, nil, "last frames:\n"+h.SC.Trace())
 	for _, rq := range h.reqs {
 		if rq.taint != "" || rq.finished {
 			continue
@@ -965,7 +1091,7 @@ func (h *vrfCli) check(what string) bool {
 			continue
 		}
 		if n := int64(cs.bufPipe.Len()); n != rq.accepted-read {
-			h.L.viol("client:buffered-bytes-mismatch:"+what, "request %s (stream %d): the peer sent %d body bytes, the application has read %d, but %d bytes are buffered\nlast frames:\n%s", rq.tag, rq.id, rq.accepted, read, n, h.SC.Trace())
+			h.L.viol("client:buffered-bytes-mismatch:"+prim, "request %s (stream %d): the peer sent %d body bytes, the application has read %d, but %d bytes are buffered\nlast frames:\n%s", rq.tag, rq.id, rq.accepted, read, n, h.SC.Trace())
 			good = false
 		}
 		h.R.Event("client_clean_stream_buffer_checks", 1)
